@@ -120,8 +120,21 @@ def _take_row() -> dict[str, Any]:
     if len(items) != 1:
         raise Broken(f"insert_scan_result queued {len(items)} statements")
     item = items[0]
-    query = next(x for x in item if isinstance(x, str))
-    params = next(x for x in item if isinstance(x, tuple | list))
+    query = next((x for x in item if isinstance(x, str)), None)
+    params = next((x for x in item if isinstance(x, tuple | list)), None)
+    if params is None:
+        # parameters handed over lazily (a callable evaluated by the writer task): evaluate them now
+        for x in item:
+            if callable(x):
+                try:
+                    val = x()
+                except Exception:  # noqa: BLE001
+                    continue
+                if isinstance(val, tuple | list):
+                    params = val
+                    break
+    if query is None or params is None:
+        raise Broken("cannot interpret what insert_scan_result handed to its writer task (statement + parameters expected)")
     cols = [c.strip() for c in query[query.index("(") + 1 : query.index(")")].split(",")]
     if len(cols) != len(params):
         raise Broken("cannot map the queued INSERT to its columns")
@@ -139,7 +152,23 @@ def stored_hex(resp: Any) -> tuple[str | None, str | None]:
         raise
     except Exception as e:  # noqa: BLE001  (observation: the row cannot be built)
         return None, type(e).__name__
-    return _take_row()["response_pdu"], None
+    # the row describes the reply as it was when it was logged: a caller that goes on working with the object afterwards
+    # (before the writer task gets to the row) must not change what is stored
+    undo: list[tuple[str, Any]] = []
+    for attr in ("data_record", "pdu"):
+        try:
+            old = getattr(resp, attr)
+            if isinstance(old, bytes) and type(resp).__dict__.get(attr) is not None and getattr(type(resp).__dict__[attr], "fset", None) is not None:
+                setattr(resp, attr, old + b"\xee")
+                undo.append((attr, old))
+                break
+        except Exception:  # noqa: BLE001
+            continue
+    try:
+        return _take_row()["response_pdu"], None
+    finally:
+        for attr, old in undo:
+            setattr(resp, attr, old)
 
 
 def stored_request_hex(req: Any) -> tuple[str | None, str | None]:
